@@ -452,8 +452,21 @@ impl WfCase {
         // decorations
         for (li, l) in lines.iter_mut().enumerate() {
             let Some(d) = (if self.deco.is_empty() { None } else { Some(&self.deco[li % self.deco.len()]) }) else { continue };
-            match d.pre % 8 {
+            match d.pre % 10 {
                 0 => {}
+                8 => {
+                    // a very long comment line (banner / embedded metadata): longer than any fixed line buffer
+                    let mut c = b"# ".to_vec();
+                    c.extend(std::iter::repeat(*b"v 9 9 9 f 1 1 1 ").take(70 + (li % 150)).flatten());
+                    l.pre.push(c);
+                    feat("deco:comment line longer than 1 KiB")
+                }
+                9 => {
+                    // a line of whitespace only, longer than 1 KiB, then a short comment
+                    l.pre.push(vec![b' '; 1030 + 17 * (li % 60)]);
+                    l.pre.push(b"# after a long blank line".to_vec());
+                    feat("deco:whitespace-only line longer than 1 KiB")
+                }
                 1 => {
                     l.pre.push(vec![]);
                     feat("deco:blank line")
@@ -558,7 +571,7 @@ fn face_spec() -> impl Strategy<Value = FaceSpec> {
 
 fn deco() -> impl Strategy<Value = Deco> {
     (
-        prop_oneof![6 => Just(0u8), 4 => 1u8..8],
+        prop_oneof![6 => Just(0u8), 4 => 1u8..8, 1 => 8u8..10],
         prop_oneof![3 => Just(0u8), 2 => 1u8..5],
         prop_oneof![3 => Just(0u8), 2 => 1u8..4],
         prop_oneof![4 => Just(0u8), 1 => 1u8..3],
